@@ -5,8 +5,9 @@
 (* Two processes.  MAIN runs the life of a driver, one step per individual    *)
 (* store of the real code:                                                    *)
 (*   constructor   CtorOrder  (set_interrupter, message pointer, message size,*)
-(*                 signal(SIGINT), signal(SIGTERM), stop_ := 0)               *)
-(*   SetHandler    SetOrder   (handler_ := h, data_ := d), once or twice      *)
+(*                 stop_ := 0, signal(SIGINT), signal(SIGTERM))               *)
+(*   SetHandler    SetOrder   (handler_ := 0, data_ := d, handler_ := h),     *)
+(*                 once or twice                                              *)
 (*   solve / report (polling Interrupter::Stop())                             *)
 (*   destructor    DtorOrder  (set_interrupter(0), stop_ := 1, handler_ := 0, *)
 (*                 message size := 0)                                         *)
@@ -14,8 +15,8 @@
 (* store (and at the marked places in solve / report / after the destructor)  *)
 (* and then runs HandleSigInt to completion before MAIN continues (it is a    *)
 (* signal handler on the same thread).  The orders of the stores are          *)
-(* parameters: the order of the code as it is, and an order for which the     *)
-(* invariants hold (which shows that they can be met with individual stores). *)
+(* parameters, so that the order of the code as it is and other orders (the   *)
+(* one the code had before its repair) can be checked with the same model.    *)
 (*                                                                            *)
 (* Every step appends an event to `log`, in the vocabulary of the recorded    *)
 (* traces.  The property is stated once, as a monitor over such logs          *)
